@@ -79,6 +79,9 @@ def universes_c08():
         E("n1", "A", 1, 10), E("n2", "A", 1, 20), E("r1", "A", 30000, 15, [["d", "x"]]), E("nb", "B", 1, 10),
         E("d0", "A", 5, 50), E("da", "A", 5, 51, [["a", "acoord"]]), E("de", "A", 5, 52, [["e"]]), E("dp", "A", 5, 53, [["p", "B"]]),
         E("dm", "A", 5, 54, [["e"], ["e", "n1"]]),
+        # a deletion that names another author's event by its coordinate (an `a` tag): whatever a relay makes of `a` tags, it
+        # must not let A remove B's event
+        E("rb", "B", 30000, 16, [["d", "x"]]), E("dab", "A", 5, 55, [["a", "bcoord"]]),
     ]
     us["delmix"] = [
         E("r1", "A", 10000, 10), E("p1", "A", 30000, 10, [["d", "a"]]), E("n1", "A", 1, 10), E("nb", "B", 1, 10),
@@ -320,7 +323,8 @@ def universes_c04():
     representations of the 'verbatim' universe, each under one palette: what a look-up by id serves must be the accepted event"""
     from . import relayfam
 
-    base = [d for d in relayfam.relay_universe() if "mutate" not in d] + relayfam.weird_events()
+    # (z0: an event dated 1970-01-01T00:00:00Z - a relay may refuse it, but what it accepts it must serve with that very timestamp)
+    base = [d for d in relayfam.relay_universe() if "mutate" not in d] + relayfam.weird_events() + [E("z0", "A", 1, -C.T0, [["t", "a"]], dub=True)]
     verb = [dict(d, sym="v_" + d["sym"], tags=[[("v_" + x if x == "pn" else x) for x in t] for t in d["tags"]])
             for d in universes_c03()["verbatim"]]
     us = {}
@@ -336,7 +340,7 @@ def universes_c04():
 PALETTE_OF = {}
 
 SYMTABS = {"ack": {"nothex": "this-is-not-an-event-id", "big": "x" * 600, "huge": 2 ** 70}, "service": {"quo": "a'\"\\b\u00e4\n", "pkB": C.pubkey("B"), "bob": "bob@example.com"}, "dunicode": {"uml": "\u00e4", "umlx": "\u00e4x"},
-           "delnone": {"acoord": "30000:%s:x" % C.pubkey("A")},
+           "delnone": {"acoord": "30000:%s:x" % C.pubkey("A"), "bcoord": "30000:%s:x" % C.pubkey("B")},
            "verbatim": {"sp": " a ", "up": "ABCDEF", "num": "007", "nfc": "\u00e9", "nfd": "e\u0301"},
            "gcdigits": {"v999": "999", "vbig": "17000000150", "vz14": "01700000014", "vi14": 1700000014, "vneg": "0abc", "viso": "2030-01-01T00:00:00Z", "vexp": "1e12", "vfrac": "1700000000.5"}}
 
